@@ -157,7 +157,7 @@ Json generate(const std::string& tier, uint64_t seed, uint64_t index) {
     for (int i = 0; i < n; ++i) {
       Json st = Json::object();
       int m = (int)rng.below(100);
-      st.set("mode", m < 32 ? "all" : m < 44 ? "counted" : m < 65 ? "some" : m < 85 ? "none" : "seterr");
+      st.set("mode", m < 32 ? "all" : m < 44 ? "counted" : m < 65 ? "some" : m < 85 ? "none" : m < 93 ? "seterr" : "seterr_end");
       st.set("k", (long)rng.below(6));
       script.push(st);
     }
@@ -306,6 +306,12 @@ sim::RunResult run(const Json& sc) {
           break;
         }
       }
+    // a consumer that rejected a completely read vector gets its code back, and its own words in the message
+    if (!res.consumer_rejected.empty()) {
+      bump(st, "consumer_rejected_complete_vector");
+      if (res.rc != res.consumer_rejected_code) v.set("HANDLER_ERROR_LOST", "code", "the consumer set error code " + std::to_string(res.consumer_rejected_code) + " after reading a whole vector; ReadSOLFile returned " + std::to_string(res.rc));
+      else if (res.msg.find(res.consumer_rejected) == std::string::npos) v.set("HANDLER_ERROR_LOST", "message", "the consumer's error text '" + res.consumer_rejected + "' does not appear in the message: " + res.msg.substr(0, 200));
+    }
     // suffix names/tables have the lengths stated in the file
     if (!bin) {
       std::vector<SufHdr> hdrs = scan_text_suffix_headers(bytes);
